@@ -24,6 +24,11 @@ Definition orc2 (a b : oracle) : addr -> oracle := fun x => if N.eqb x 51 || N.e
 
 Record item := I { it_call : call; it_out : res ret; it_obs : obs }.
 Record ttrace := mkTT { t_hc : hostcfg; t_univ : list addr; t_items : list item }.
+(* an item whose transfer destination was sent as a MuxedAddress carrying the id [id] (the model's
+   entry point drops the id, Model/Rwa.v [mux_op]; diff and monitor treat the call like any other
+   transfer: same gates, same movement, exactly one notification naming the address part) *)
+Definition IMux (id : Z) (c : call) (o : res ret) (b : obs) : item :=
+  I (mkCall (mux_op id (c_op c)) (c_auths c) (c_orc c)) o b.
 
 (* ------------------------------------------------------------------ *)
 (* boolean equalities                                                   *)
